@@ -57,14 +57,14 @@ def parseExp (s : List UInt8) : Option (Int × List UInt8) :=
   let (v, cnt, rest) := takeDigits 0 0 s
   if cnt == 0 then none else some (if neg then -(v : Int) else (v : Int), rest)
 
-/-- `parse_number`: digits, optional fraction, optional exponent, to the end of the token.
-Returns (all digits as one number, decimal exponent). -/
-def parseNumber (s : List UInt8) : Option (Nat × Int) :=
-  let (ip, ni, s) := takeDigits 0 0 s
-  let (d, nf, s) : Nat × Nat × List UInt8 :=
-    match s with
-    | b :: rest => if b == 46 then takeDigits ip 0 rest else (ip, 0, s)
-    | [] => (ip, 0, s)
+/-- The optional `.digits` part: (all digits so far, number of fraction digits, rest). -/
+def takeFraction (ip : Nat) (s : List UInt8) : Nat × Nat × List UInt8 :=
+  match s with
+  | b :: rest => if b == 46 then takeDigits ip 0 rest else (ip, 0, s)
+  | [] => (ip, 0, s)
+
+/-- After the digits: at least one digit was seen; then the end, or an exponent up to the end. -/
+def parseTail (d ni nf : Nat) (s : List UInt8) : Option (Nat × Int) :=
   if ni + nf == 0 then none
   else
     match s with
@@ -75,6 +75,14 @@ def parseNumber (s : List UInt8) : Option (Nat × Int) :=
         | some (e, []) => some (d, e - (nf : Int))
         | _ => none
       else none
+
+/-- `parse_number`: digits, optional fraction, optional exponent, to the end of the token.
+Returns (all digits as one number, decimal exponent). -/
+def parseNumber (s : List UInt8) : Option (Nat × Int) :=
+  match takeDigits 0 0 s with
+  | (ip, ni, s1) =>
+    match takeFraction ip s1 with
+    | (d, nf, s2) => parseTail d ni nf s2
 
 def kwInf : List UInt8 := [105, 110, 102]
 def kwInfinity : List UInt8 := [105, 110, 102, 105, 110, 105, 116, 121]
